@@ -139,6 +139,20 @@ let run_case (line : string) : string =
       if M.is_truthy a then "b1" else "b0"
   | "echo" -> string_of_value (parse_value t)
   | "lex" -> let tk = next t in lex_case (decode_src (rest tk))
+  | "compile" ->
+      let src = decode_src (rest (next t)) in
+      (match M.compile_source (nat_of_int (List.length src + 20000)) src with
+       | M.COk (p, _) ->
+           let b = Buffer.create 128 in
+           Buffer.add_string b "OK "; print_code b p.M.pr_code;
+           Buffer.add_string b " PARAMS(";
+           List.iter (fun x -> Buffer.add_string b " "; Buffer.add_string b (hex_of_bytes x)) p.M.pr_params;
+           Buffer.add_string b " )";
+           Buffer.contents b
+       | M.CSyntax l -> "ERR Esyn:" ^ loc_str l
+       | M.CPanic -> "PANIC"
+       | M.CFuel -> "MODEL_FUEL"
+       | M.CUnmod -> "UNMOD")
   | "parse" ->
       let src = decode_src (rest (next t)) in
       (match M.parse_program (nat_of_int (List.length src + 2)) src with
@@ -152,14 +166,14 @@ let run_case (line : string) : string =
       let binds = parse_binds t in
       let ufs = parse_ufuncs t in
       let env = { M.e_bound = true; e_params = binds; e_progs = progs; e_ufuncs = ufs;
-                  e_runtime = true; e_now = M.Z0 } in
+                  e_runtime = true; e_now = Some M.Z0 } in
       print_res (M.exec (Lazy.force big_fuel) env entry) print_log
   | "func" ->
       (* func <name> <this> L( args ) *)
       let name = bytes_of_hex (next t) in
       let this = parse_value t in
       let args = (match parse_value t with M.VList l -> l | _ -> raise (Parse_error "args")) in
-      (match M.call_default M.Z0 name this args with
+      (match M.call_default (Some M.Z0) name this args with
        | None -> "NOFUNC"
        | Some (M.ROk v) -> string_of_value v
        | Some M.RUnmod -> "UNMOD"
@@ -169,7 +183,7 @@ let run_case (line : string) : string =
   | "ctor" ->
       let name = bytes_of_hex (next t) in
       let args = (match parse_value t with M.VList l -> l | _ -> raise (Parse_error "args")) in
-      (match M.construct_type M.Z0 name args with
+      (match M.construct_type (Some M.Z0) name args with
        | M.ROk v -> string_of_value v
        | M.RUnmod -> "UNMOD"
        | M.RPanic -> "PANIC"
